@@ -938,8 +938,42 @@ let run_net (path : string) =
       Printf.printf "D %s\n" (node_dump ~anon:true false !n)) c.ops;
     print_string "E\n") (read_cases path)
 
+(* ---------- bursts of sessions (C17): the model runs them one after the other ---------- *)
+let run_burst (path : string) =
+  List.iter (fun c ->
+    Printf.printf "C %s\n" c.id;
+    let n = ref (init_node (cl_of_string "nun") (cl_of_string "pwd") (cl_of_string "n0:3014") (n_of_int 1000) Primary clock0) in
+    let dbn = (match c.header with _ :: d :: _ -> d | _ -> "d1") in
+    let counters () =
+      match List.find_opt (fun (nm, _) -> string_of_cl nm = dbn) !n.n_dbs with
+      | None -> "nodb"
+      | Some (_, d) ->
+        let key = (match List.find_opt (fun (k, _) -> string_of_cl k = "$connections") d.d_map with
+            | Some (_, v) -> esc (string_of_cl v.v_val) | None -> "-") in
+        Printf.sprintf "conn=%s key=%s" (z_str d.d_conn) key in
+    List.iter (fun op ->
+      (match op with
+       | ["conn"] -> let (n', _) = connect !n in n := n'
+       | ["cmd"; sid; line] ->
+         let (n', _) = step !n (nat_of_int (int_of_string sid)) (cl_of_string (unhex line)) in
+         n := { n' with n_sess = List.map (fun s -> { s with s_inbox = [] }) n'.n_sess; n_repl = []; n_sup = [] }
+       | ["burst"; t; k; line] ->
+         (* one scratch session, opened and closed t*k times: the session list does not grow *)
+         let (n0, id) = connect !n in
+         n := n0;
+         for _ = 1 to int_of_string t * int_of_string k do
+           let (n1, _) = step !n id (cl_of_string (unhex line)) in
+           let n2 = disconnect n1 id in
+           n := { n2 with n_sess = List.mapi (fun i s -> if i = int_of_nat id then { s with s_inbox = []; s_db = None; s_user = None } else { s with s_inbox = [] }) n2.n_sess;
+                          n_repl = []; n_sup = [] }
+         done
+       | _ -> failwith "bad burst op");
+      Printf.printf "B %s\n" (counters ())) c.ops;
+    print_string "E\n") (read_cases path)
+
 let () =
   match Array.to_list Sys.argv with
+  | [_; "burst"; path] -> run_burst path
   | [_; "net"; path] -> run_net path
   | [_; "sched"; path] -> run_sched path
   | [_; "cluster"; path] -> run_cluster path
